@@ -178,7 +178,11 @@ func (r *validationResponseHandler) HandleValidationResponse(
 	case r.ce.CanStoreResponse(resp, ctx.CCReq, ccResp):
 		// RFC 9111 §4.3.3 Handling Validation Responses (full response)
 		// RFC 9111 §3.2 Storing Responses
-		_ = r.rs.StoreResponse(storeReq, resp, ctx.URLKey, ctx.Refs, ctx.Start, ctx.End, ctx.RefIndex)
+		if cs, ok := r.rs.(ConditionalResponseStorer); ok {
+			_ = cs.StoreResponseIf(storeReq, resp, ctx.URLKey, ctx.Refs, ctx.Start, ctx.End, ctx.RefIndex, ctx.Unchanged)
+		} else if ctx.Unchanged == nil || ctx.Unchanged() {
+			_ = r.rs.StoreResponse(storeReq, resp, ctx.URLKey, ctx.Refs, ctx.Start, ctx.End, ctx.RefIndex)
+		}
 		CacheStatusMiss.ApplyTo(resp.Header)
 		r.l.LogCacheMiss(req, ctx.URLKey, ctx.ToMisc(ccResp))
 	case IsUnsafeMethod(req.Method) && IsNonErrorStatus(resp.StatusCode):
